@@ -329,7 +329,7 @@ namespace
                 }
             }
         // min depth / max depth variants
-        for (double d0 : {20.0, 70.0}) for (double d1 : {45.0, 90.0}) for (double mind : {0.0, 3e4}) for (double maxd : {-1.0, 9e4})
+        for (double d0 : {20.0, 70.0}) for (double d1 : {45.0, 90.0}) for (double mind : {0.0, 3e4, -4e4}) for (double maxd : {-1.0, 9e4})
                 {
                   if (mind == 0 && maxd < 0) continue;
                   Config c; c.fault = fault; c.dips = {d0, d1}; c.lengths = {1.5e5}; c.min_depth = mind; c.max_depth = maxd; c.shape = 0;
